@@ -193,10 +193,10 @@ func ctrInv(s *seqCounters) bool {
 // C19: lock discipline of the ingest receiver
 
 //@ guarded_by ChannelMgr.mu: channels
-//@ guarded_by channel.mu: trDatas, trIDs, mpd
+//@ guarded_by channel.mu: trDatas, trIDs, mpd, masterTrName
 // The master* fields are written only by the channel goroutine (run -> receivedSegData ...), which may
 // therefore read them without the lock; upload handlers must read them under the lock.
-//@ guarded_by channel.mu: masterTimescale, masterSegDuration, masterTimeShift, masterSeqNrShift; owner: run, receivedSegData, isShifted, updateAndWriteMPD, deriveAndSetBitrates, deriveAndSetFrameRates, generateSegmentTimelineNrMPD
+//@ guarded_by channel.mu: masterTimescale, masterSegDuration, masterTimeShift, masterSeqNrShift, maxNrBufSegs; owner: run, receivedSegData, isShifted, updateAndWriteMPD, deriveAndSetBitrates, deriveAndSetFrameRates, generateSegmentTimelineNrMPD
 //@ guarded_by Receiver.mu: streams
 
 //@ lock_inv ChannelMgr.mu(cm): cm.channels != nil && (all k string :: haskey(cm.channels, k) ==> cm.channels[k] != nil)
@@ -262,8 +262,9 @@ func ctrInv(s *seqCounters) bool {
 //@   wiring
 //@   keep divzero
 //@   callsite updateAndWriteMPD requires masterValuesSet: ch.masterTimescale != 0 && ch.masterSegDuration != 0
-//@   store ch.maxNrBufSegs = requires keptFilesCoverTheWindow: ch.maxNrBufSegs == ch.timeShiftBufferDepthS*ch.masterTimescale/ch.masterSegDuration + 2
-//@   store windowSize := requires listedWindowOneLessThanKeptFiles: windowSize == ch.maxNrBufSegs - 1
+//@   store maxNrBufSegs := requires keptFilesCoverTheWindow: maxNrBufSegs == ch.timeShiftBufferDepthS*ch.masterTimescale/ch.masterSegDuration + 2
+//@   store ch.maxNrBufSegs = requires publishedToHandlers: ch.maxNrBufSegs == maxNrBufSegs
+//@   store windowSize := requires listedWindowOneLessThanKeptFiles: windowSize == maxNrBufSegs - 1
 //@   callsite start requires generatorGetsTheWindow: arg1 == windowSize
 
 //@ func (*channel).updateAndWriteMPD
